@@ -32,7 +32,8 @@ CaseCode(c) ==
         h4 == Mix(Mix(Mix(h3, MaskOf(c.sh, n)), MaskOf(c.rh, n)), MaskOf(c.rt, 2))
         h5 == SetCode(c.wants, h4)
         h6 == Mix(h5, CASE c.mode = "single" -> 1 [] c.mode = "multi" -> 2 [] OTHER -> 3)
-    IN  Mix(Mix(Mix(h6, IF c.inctag THEN 1 ELSE 0), IF c.thin THEN 1 ELSE 0), IF c.full THEN 1 ELSE 0)
+        h7 == Mix(Mix(Mix(h6, IF c.inctag THEN 1 ELSE 0), IF c.thin THEN 1 ELSE 0), IF c.full THEN 1 ELSE 0)
+    IN  IF c.dg = {} THEN h7 ELSE SetCode(c.dg, Mix(h7, 5))
 
 Sampled == SampleMod = 1 \/ (CaseCode(cs) * 7919 + SampleSeed) % SampleMod = 0
 
